@@ -739,3 +739,10 @@ def shrink(case, fails):
         if fails(t): cur = t
         else: i += 1
     return cur
+
+
+def translate(repo, gen_dir):
+    """regenerate Gen/C13_Kernel.v (kernel expressions of the four from_gmat estimators, the argument checks, the views and
+    summaries of DenseCoancestryMatrix, and the label / factory wiring tables) from the current source; fail closed"""
+    from translate import c13_kernel
+    return [c13_kernel.translate(repo, gen_dir)]
